@@ -17,6 +17,7 @@ import (
 var rec = vk.NewRecorder("C01")
 
 func TestMain(m *testing.M) {
+	vk.Disturb = gen.Disturb
 	code := m.Run()
 	rec.Flush("all")
 	os.Exit(code)
